@@ -1999,3 +1999,46 @@ M('c15-twin-dict-record-renamed', 'C15', 'silent',
    '''        record = self.meta_db[id]
         record['timestamp'] = timestamp
         self.meta_db[id] = record''', 1))
+
+# ---------------------------------------------------------- C05 R5.7 / R5.5
+DR = 'slimta/smtp/datareader.py'
+M('c05-eod-flag-from-fragment', 'C05', 'fire:R5.7',
+  (DR, """        self.EOD = None
+        self.lines = [b'']""",
+   """        self.EOD = None
+        self.after_crlf = True
+        self.lines = [b'']""", 1),
+  (DR, """            if eod_pattern.match(line):
+                self.EOD = i""",
+   """            if self.after_crlf and eod_pattern.match(line):
+                self.EOD = i""", 1),
+  (DR, """            self._append_line(match.group(0))
+            self.handle_finished_line()""",
+   """            self._append_line(match.group(0))
+            self.handle_finished_line()
+            self.after_crlf = match.group(0).endswith(b'\\r\\n')""", 1))
+M('c05-twin-eod-flag-from-assembled-line', 'C05', 'silent',
+  (DR, """        self.EOD = None
+        self.lines = [b'']""",
+   """        self.EOD = None
+        self.after_crlf = True
+        self.lines = [b'']""", 1),
+  (DR, """        i = self.i
+        line = self.lines[i]
+""",
+   """        i = self.i
+        line = self.lines[i]
+        was_crlf = self.after_crlf
+        self.after_crlf = line.endswith(b'\\r\\n')
+""", 1),
+  (DR, """            if eod_pattern.match(line):
+                self.EOD = i""",
+   """            if was_crlf and eod_pattern.match(line):
+                self.EOD = i""", 1))
+M('c05-sender-splitlines', 'C05', 'fire:R5.5',
+  ('slimta/smtp/datasender.py', '''            index = part.find(b'\\n.', i)''',
+   '''            _unused = part.splitlines(True)
+            index = part.find(b'\\n.', i)''', 1))
+M('c05-twin-fullline-pattern-with-group', 'C05', 'silent',
+  (DR, r'''fullline_pattern = re.compile(br'.*\n')''',
+   r'''fullline_pattern = re.compile(br'(.*\r?\n)')''', 1))
